@@ -25,7 +25,14 @@ def run(tier, seed, jobs):
         "task, tasks have ended when the context exit returns, late calls raise RuntimeError, no "
         "deadlock; non-trivial = at least one non-default thread scheduling decision")
     for v in viol:
-        v["signature"] = v["what"][0].split("(")[0][:80]
+        w0 = v["what"][0]
+        if w0.startswith("execution status deadlock"):
+            # (specific: which scenario, which actors are stuck - a known finding must not hide
+            # other deadlocks)
+            v["signature"] = (v.get("program", {}).get("label", "?") + " :: " +
+                              w0.split("no enabled actor:")[-1].strip())[:200]
+        else:
+            v["signature"] = w0.split("(")[0][:80]
     return {"level": "exploration", "coverage": cov, "violations": viol,
             "harness_errors": harness,
             "assumptions": ["threads are switched only at synchronisation operations",
